@@ -175,6 +175,12 @@ def run(ctx, model):
     kernels.run_multi(ctx, model, "C13")
     from props import logixdrv
     logixdrv.run_altered(ctx, model, "C13")
+    from props import slcdrv
+    slcdrv.run_altered(ctx, model, n=ctx.budget(15, 150))
+    if transcripts is not None:
+        l2, p2 = [], []
+        transcripts.run_altered_client(ctx, model, l2, p2, "C13")
+        transcripts.flush(ctx, model, l2, p2)
     outs = model.batch(lines)
     for (stream, transport, raw, impl), out in zip(pend, outs):
         if out != impl:
